@@ -278,6 +278,11 @@ mod verif_xc_matching_endpoints {
       }
       assert!(pending_out.is_empty() && pending_in.is_empty() && n_incompat == exp_incompat.is_some() as i32,
         "XC-WITNESS label={} ops={:?}: status events of the last operation are {:?}; expected {} (match set before {:?}, after {:?})", label, t, obs, expect, names(&pre), names(&self.matched));
+      // ---- run-time state of every matched proxy
+      for &w in &self.matched {
+        let base = i64::from(self.reader.matched_writers[&wguid(w)].all_ackable_before());
+        assert!(base == self.next_sn[w], "XC-WITNESS label=match.readd.frame ops={:?}: proxy of {} has all_ackable_before = {}, but {} DATA in sequence were received since it was matched (required {})", t, NAMES[w], base, self.next_sn[w] - 1, self.next_sn[w]);
+      }
       // ---- frame: no operation touches the proxy of another writer; a re-announce (same locators)
       //      and a dispose / participant loss leave every remaining proxy exactly as it was
       for (g, before) in &snapshot {
@@ -287,11 +292,6 @@ mod verif_xc_matching_endpoints {
           assert!(touched || after == *before, "XC-WITNESS label={} ops={:?}: the last operation changed the proxy of {}: before {} after {}",
             if matches!(op, Op::Announce(w, _) if wguid(w) == *g) { "match.readd.frame" } else { "match.frame" }, t, wname(*g), before, after);
         }
-      }
-      // ---- run-time state of every matched proxy
-      for &w in &self.matched {
-        let base = i64::from(self.reader.matched_writers[&wguid(w)].all_ackable_before());
-        assert!(base == self.next_sn[w], "XC-WITNESS label=match.readd.frame ops={:?}: proxy of {} has all_ackable_before = {}, but {} DATA in sequence were received since it was matched (required {})", t, NAMES[w], base, self.next_sn[w] - 1, self.next_sn[w]);
       }
     }
   }
